@@ -299,9 +299,12 @@ impl Axecutor {
                 );
             }
 
-            // If the argument is 0, we just return the current brk_start
+            // If the argument is 0, we just return the current break, i.e. the end of the brk section
             if brk == 0 {
-                ax.reg_write_64(RAX, ax.state.syscalls.brk_start)?;
+                ax.reg_write_64(
+                    RAX,
+                    ax.state.syscalls.brk_start + ax.state.syscalls.brk_length,
+                )?;
                 return Ok(HookResult::Handled);
             }
 
